@@ -950,6 +950,48 @@ def m_slice_eq(ex, st, fr, path, args, m):
     return bnot(r) if neg else r
 
 
+def struct_eq(ex, st, a, b):
+    """derived PartialEq on Option/Result/tuples/refs of scalars -> I(bool) (None if not applicable)"""
+    a, b = deref_val(a), deref_val(b)
+    while isinstance(a, Ref) and a.window is None:
+        a = deref_val(a)
+    while isinstance(b, Ref) and b.window is None:
+        b = deref_val(b)
+    if isinstance(a, I) and isinstance(b, I):
+        return binop("Eq", a, b)
+    if isinstance(a, Agg) and isinstance(b, Agg):
+        if a.kind == "enum" or b.kind == "enum":
+            if a.variant != b.variant:
+                return I("bool", 0)
+        if len(a.fields) != len(b.fields):
+            return I("bool", 0)
+        acc = []
+        for x, y in zip(a.fields, b.fields):
+            e = struct_eq(ex, st, x, y)
+            if e is None:
+                return None
+            acc.append(e)
+        return band(*acc) if acc else I("bool", 1)
+    if isinstance(a, Ref) and isinstance(b, Ref):
+        e1, l1, h1 = seq_of(a)
+        e2, l2, h2 = seq_of(b)
+        if h1 - l1 != h2 - l2:
+            return I("bool", 0)
+        acc = [struct_eq(ex, st, x, y) for x, y in zip(e1[l1:h1], e2[l2:h2])]
+        if any(x is None for x in acc):
+            return None
+        return band(*acc) if acc else I("bool", 1)
+    return None
+
+
+@model(r"^<(?:std::option::)?Option<(.*)> as (?:std::cmp::)?PartialEq>::(eq|ne)$|^<\((.*)\) as (?:std::cmp::)?PartialEq>::(eq|ne)$|^<(?:std::result::)?Result<(.*)> as (?:std::cmp::)?PartialEq>::(eq|ne)$|^<&(.*) as (?:std::cmp::)?PartialEq(?:<.*>)?>::(eq|ne)$")
+def m_struct_eq(ex, st, fr, path, args, m):
+    e = struct_eq(ex, st, args[0], args[1])
+    if e is None:
+        return NotImplemented
+    return bnot(e) if path.endswith("::ne") else e
+
+
 def bytes_cmp(ex, st, a, b):
     """lexicographic comparison of two byte sequences -> -1/0/1 (forks on symbolic bytes)"""
     e1, l1, h1 = seq_of(a)
